@@ -26,6 +26,40 @@ def load_rules(prop):
     return obs
 
 
+import ast
+
+
+def defuse_obligation(prop, touched):
+    """generic obligation added to every property: the functions its rules anchor on contain no read of a possibly-unassigned local"""
+    from sa import flow
+
+    def body(ctx):
+        n = 0
+        for key in touched:
+            node = ctx.repo.funcs.get(key)
+            if node is None:
+                continue
+            f = core.Fn(ctx.repo, key[0], key[1], key[2], node)
+            n += 1
+            ctx.count(1, f.construct)
+            pm = None
+            mnames = set(ctx.repo.mod_assign[key[0]]) | set(ctx.repo.imports[key[0]]) | set(ctx.repo.ext_imports[key[0]]) | \
+                {k[2] for k in ctx.repo.funcs if k[0] == key[0] and k[1] is None} | {c for c, (m, _) in ctx.repo.classes.items() if m == key[0]}
+            tree = ctx.repo.trees[key[0]]
+            star = any(isinstance(x, ast.ImportFrom) and any(a.name == '*' for a in x.names) for x in tree.body)
+            for x in ast.walk(tree):
+                if isinstance(x, (ast.For, ast.With)) and x in tree.body:
+                    pass
+            for nd, nm in flow.possibly_undefined(node, None if star else mnames):
+                if pm is None:
+                    from sa.au import parent_map, enclosing_stmt
+                    pm = parent_map(node)
+                ctx.fail(f, enclosing_stmt(pm, nd), 'local `%s` may be read before it is assigned (NameError / UnboundLocalError on that path): a definition it relied on was removed or moved into a branch' % nm, stmt='%s reads %s' % (f.qual, nm))
+        ctx.fact('functions', n)
+    return Ob(prop + '.U', 'DEF-USE integrity', 'every function the obligations of %s anchor on' % prop,
+              'the anchored operations must not raise NameError/UnboundLocalError on any path: every local is assigned on all paths before it is read (must-assigned forward analysis; loop bodies may run zero times)', body)
+
+
 def check(prop, tier='quick', repo=None, only=None, quiet=False, write=True):
     t0 = time.time()
     seed = int(os.environ.get('VERIF_SEED', '0') or 0)
@@ -41,10 +75,13 @@ def check(prop, tier='quick', repo=None, only=None, quiet=False, write=True):
         return 2, []
     known = core.load_known()
     results = []
+    repo.touched = []
     for ob in obs:
         if only and ob.oid not in only:
             continue
         results.append(run_obligation(ob, repo, tier, known))
+    if not only or (prop + '.U') in only:
+        results.append(run_obligation(defuse_obligation(prop, list(repo.touched)), repo, tier, known))
     st = repo.stats()
     say('== %s tier=%s  analysed: %d modules, %d functions, %d classes; %d obligations' % (prop, tier, st['modules'], st['functions'], st['classes'], len(results)))
     nviol = nerr = nknown = 0
